@@ -59,6 +59,7 @@ func c16NegotiatedWriters(c *Ctx, rule string) {
 		return
 	}
 	nCalls := 0
+	up := c10NewUpProv(c)
 	for _, fi := range c.P.AllFuncs() {
 		if fi.Decl.Body == nil {
 			continue
@@ -69,7 +70,18 @@ func c16NegotiatedWriters(c *Ctx, rule string) {
 			case *ast.CallExpr:
 				if core.IsCallTo(info, s, push.Obj) {
 					nCalls++
-					r.Check(fi == upd, rule, "call:pushCodecs|in:"+fi.Name(), c.P.Pos(s.Pos()), "called from updateFromRemoteDescription (argument provenance checked there)", "pushCodecs is called outside updateFromRemoteDescription: the negotiated list can receive codecs that were not matched against a remote description")
+					// directly in updateFromRemoteDescription, or in an unexported helper that is only ever called from it
+					// (its tail extracted; the provenance of the lists is followed through the call by R1)
+					via := fi == upd
+					if !via && !fi.Obj.Exported() && !up.escapes[fi.Obj] && len(up.callers[fi.Obj]) > 0 {
+						via = true
+						for _, cs := range up.callers[fi.Obj] {
+							if cs.fi != upd {
+								via = false
+							}
+						}
+					}
+					r.Check(via, rule, "call:pushCodecs|in:"+fi.Name(), c.P.Pos(s.Pos()), "called from updateFromRemoteDescription (argument provenance checked there)", "pushCodecs is called outside updateFromRemoteDescription: the negotiated list can receive codecs that were not matched against a remote description")
 				}
 			case *ast.AssignStmt:
 				for _, l := range s.Lhs {
